@@ -55,18 +55,26 @@ def h_calculate(with_default_nanotez):
     return h
 
 
-def h_default_fee(kind, src, gas_given):
+def h_default_fee(kind, src, gas_given, dest='tz1DST', nano_given=False):
+    """dest: destination of the content (implicit account / originated contract: the default gas limit differs);
+    nano_given: the caller passes minimal_nanotez_per_gas_unit (symbolic) through default_fee"""
     from pytezos.operation import fees as Fm
 
     def h(e: Engine):
         S = e.int('forged_size', lo=0).e
         _stub_forge(e, S)
-        content = {'kind': kind, 'source': src + 'SRC', 'destination': 'tz1DST'}
-        tag = f'{kind},{src},{"gas_limit" if gas_given else "default_gas"}'
+        content = {'kind': kind, 'source': src + 'SRC', 'destination': dest}
+        tag = f'{kind},{src},{"gas_limit" if gas_given else "default_gas"}' + ('' if dest == 'tz1DST' else f',to {dest[:3]}') + (',nanotez' if nano_given else '')
+        kw = {}
+        nano = z3.IntVal(100)
+        if nano_given:
+            nv = e.int('nanotez_per_gas_unit', lo=0, hi=8192)
+            nano = nv.e
+            kw['minimal_nanotez_per_gas_unit'] = nv
         if gas_given:
-            g = e.int('gas_limit', lo=0, hi=2 ** 40)
+            g = e.int('gas_limit', lo=0, hi=2 ** 39 if nano_given else 2 ** 40)
             gas = g.e
-            r = e.call(Fm.default_fee, [content], dict(gas_limit=g))
+            r = e.call(Fm.default_fee, [content], dict(gas_limit=g, **kw))
         else:
             try:
                 gas0 = Fm.default_gas_limit(content)
@@ -74,12 +82,12 @@ def h_default_fee(kind, src, gas_given):
                 e.check(f'default_gas_limit[{tag}]::safety.no_exception[{type(ex).__name__}]', z3.BoolVal(False))
                 return
             gas = z3.IntVal(gas0)
-            r = e.call(Fm.default_fee, [content])
+            r = e.call(Fm.default_fee, [content], kw)
         fee = Z(r)
         sig = SOURCES[src]
         # node rule for a single-content operation whose final forged size is at most S + 9 (fee/gas/storage fields grow)
         e.check(f'default_fee[{tag}]::ensures.covers(branch32 + signature{sig} + 9 growth + gas)',
-                1000 * fee >= 100000 + 1000 * (S + 9 + 32 + sig) + 100 * gas)
+                1000 * fee >= 100000 + 1000 * (S + 9 + 32 + sig) + nano * gas)
     return h
 
 
@@ -138,3 +146,11 @@ def run_P(ck):
                     return native(c)
                 report(ck, eng, [('', 'props.C24_P:replay', nat, None)])
                 functions_interpreted(ck, eng)
+    # widened: destination an originated contract (the default gas limit is the hard limit), and the caller's
+    # minimal_nanotez_per_gas_unit (symbolic, 0..8192) passed through default_fee with and without an explicit gas limit
+    for src, gg, dest, ng in (('tz1', False, 'KT1DST', False), ('tz4', False, 'KT1DST', False), ('tz1', True, 'KT1DST', True),
+                              ('tz4', True, 'tz1DST', True), ('tz2', False, 'tz1DST', True), ('tz4', False, 'KT1DST', True)):
+        eng = Engine()
+        run_harness(ck, eng, h_default_fee('transaction', src, gg, dest, ng), f'default_fee[transaction,{src},{gg},{dest},{ng}]')
+        report(ck, eng, [])
+        functions_interpreted(ck, eng)
